@@ -49,6 +49,7 @@ GROUPS = {
     "Ports": dict(imports=["TLX.PyRt"], decls=[]),
     "TlsSess": dict(imports=["TLX.PyRt", "TLX.Session"], decls=[]),
     "Reasm": dict(imports=["TLX.PyRt", "TLX.Reassembly"], decls=[]),
+    "Checksum": dict(imports=["TLX.PyRt"], decls=[]),
     # the frame class constructors call the two varint functions: this group rests on Varint's definitions
     "Frames": dict(imports=["TLX.PyRt", "TLX.Quic.FrameTypes", "TLX.Gen.Translated.Varint"], decls=[]),
 }
@@ -322,6 +323,25 @@ SPECS.append(dict(name="parse_frames", group="Frames", file="tlexport/quic/quic_
                   calls={"GenericFrame": dict(lean=f"construct {CLS}.GenericFrame", args=["Bytes", None], ret="FrameObj", raises=True)},
                   attr_funcs={("FrameObj", "length"): ("FrameObj.length", "Nat")}))
 
+# checksums.py: the bytearrays are locals the functions create (`copy.deepcopy`, `bytearray(…)`): values that are rebound;
+# what the functions read from the packet object are places (`len(packet.udp)`, `bytes(packet.udp)` are inputs)
+SPECS.append(dict(name="ones_complement_checksum", group="Checksum", file="tlexport/checksums.py", func="ones_complement_checksum",
+                  params=[("byte_arr", "Bytes")], ret="Bytes", fuel={"while ": "checksum"}))
+SPECS.append(dict(name="calculate_checksum_udp", group="Checksum", file="tlexport/checksums.py", func="calculate_checksum_udp",
+                  params=[], ret="Bool",
+                  calls={"ones_complement_checksum": dict(lean="ones_complement_checksum", args=["Bytes"], ret="Bytes", raises=True)},
+                  places=[("packet.ipv6_packet", "ipv6_packet", "Bool", "r"), ("packet.ip_src", "ip_src", "Bytes", "r"),
+                          ("packet.ip_dst", "ip_dst", "Bytes", "r"), ("packet.ip.p", "ip_p", "Nat", "r"),
+                          ("len(packet.udp)", "l4_len", "Nat", "r"), ("bytes(packet.udp)", "l4_bytes", "Bytes", "r"),
+                          ("packet.udp.sum", "l4_sum", "Nat", "r")]))
+SPECS.append(dict(name="calculate_checksum_tcp", group="Checksum", file="tlexport/checksums.py", func="calculate_checksum_tcp",
+                  params=[], ret="Bool",
+                  calls={"ones_complement_checksum": dict(lean="ones_complement_checksum", args=["Bytes"], ret="Bytes", raises=True)},
+                  places=[("packet.ipv6_packet", "ipv6_packet", "Bool", "r"), ("packet.ip_src", "ip_src", "Bytes", "r"),
+                          ("packet.ip_dst", "ip_dst", "Bytes", "r"), ("packet.ip.p", "ip_p", "Nat", "r"),
+                          ("len(packet.tcp)", "l4_len", "Nat", "r"), ("bytes(packet.tcp)", "l4_bytes", "Bytes", "r"),
+                          ("packet.tcp.sum", "l4_sum", "Nat", "r")]))
+
 THEOREMS = _uniq(theorem_of(s) for s in SPECS)
 
 
@@ -349,6 +369,7 @@ CHECK_GROUPS = {
     "C05": ["Reasm"],
     "C07": ["Ports"],
     "C10": ["Ports"],
+    "C11": ["Checksum"],
     "C13": ["TlsSess"],
     "C16": ["Pn"],
     "C17": ["Varint", "Frames"],
